@@ -180,6 +180,13 @@ type Sim struct {
 
 var cur atomic.Pointer[Sim]
 
+// progress counts scheduler steps and run starts over the life of the process; an engine's
+// real-time watchdog uses it to tell a hung process from a busy one.
+var progress atomic.Uint64
+
+// Progress returns the step counter and whether a simulation is running.
+func Progress() (uint64, bool) { return progress.Load(), cur.Load() != nil }
+
 // Active reports whether a simulation is running in this process.
 func Active() bool { return cur.Load() != nil }
 
@@ -492,6 +499,7 @@ func (s *Sim) Run(caller func()) (res Result) {
 		panic("simrt: a simulation is already running in this process")
 	}
 	defer cur.Store(nil)
+	progress.Add(1)
 	t0 := time.Now() // fake clock inside the bubble
 	if s.opt.Faults.Policy == PolPCT && !s.opt.Replay {
 		s.pctChange = make(map[int]bool)
@@ -644,6 +652,7 @@ func (s *Sim) Run(caller func()) (res Result) {
 		s.logStep(ev)
 		s.lastActor = a
 		s.step++
+		progress.Add(1)
 		s.mu.Lock()
 		a.parked = false
 		s.mu.Unlock()
